@@ -732,7 +732,7 @@ def socket_scenarios(ctx, n):
 
 
 def explore(ctx, drv):
-    thorough = ctx.thorough or ctx.escalated
+    thorough = ctx.thorough          # an escalated quick run widens the seeded part (budget x4), not the encoding grid
     singles = single_scenarios(ctx, thorough)
     chunk = 3000
     for i in range(0, len(singles), chunk):
